@@ -11,6 +11,7 @@ import random
 
 from harness import busnet, ref_codec as R, ref_match as RMATCH, ref_message as RM, ref_names as RN
 from harness.ref_codec import Variant
+from harness.ref_codec import Variant as RV
 
 PROP = 'C14'
 LEVEL = 'exploration'
@@ -356,7 +357,21 @@ def run_history(ctx, seed, idx):
             serial = BODYLESS_SERIAL0 + int(tok[3:]) if tok[3:].isdigit() else BODYLESS_SERIAL0 + len(hist)
             tok = 'tokS%d' % serial
             ctx.count('bodyless_messages')
-        raw = RM.build(mtype, serial, fields, sig, body, r.random() < 0.7, flags)
+        # header fields in any order, now and then with a field code this version of the protocol does not define (to be
+        # accepted and ignored): what the fields behind it say still holds
+        r_hdr = random.Random('%s/c14hdr/%s/%d' % (seed, idx, serial))
+        extra_, order_ = (), None
+        if r_hdr.random() < 0.35:
+            if r_hdr.random() < 0.6:
+                extra_ = [(r_hdr.choice([10, 11, 77, 200]), r_hdr.choice([RV('s', 'future'), RV('u', 7), RV('ay', [1, 2])]))]
+                ctx.count('messages_with_unknown_header_field')
+
+            def order_(fl, _r=r_hdr):
+                fl = list(fl)
+                _r.shuffle(fl)
+                return fl
+            ctx.count('messages_with_shuffled_header_fields')
+        raw = RM.build(mtype, serial, fields, sig, body, r.random() < 0.7, flags, extra_fields=extra_, field_order=order_)
         little_ = raw[0:1] == b'l'
         hist.append([op, a, RM.TYPE_NAMES[mtype], dest, tok, forged, flags, sig])
         if r.random() < 0.3:
